@@ -353,6 +353,10 @@ func (e *Engine) typeAssumeAlloc(st *State, t types.Type, leaves []string, alloc
 		if isNumLit(x) {
 			continue
 		}
+		if l.Part == "arr" && i+2 < len(ls) && i+2 < len(leaves) && ls[i+1].Part == "off" && ls[i+2].Part == "len" {
+			// a nil slice has no elements
+			cs = append(cs, implies(eq(x, "0"), and(eq(leaves[i+1], "0"), eq(leaves[i+2], "0"))))
+		}
 		switch l.Sort {
 		case SInt:
 			if l.Part == "off" || l.Part == "len" {
